@@ -149,8 +149,9 @@ func NewPQIndex(dim int, distanceKind DistanceKind, M int, Nbits int) (*PQIndex,
 	}
 
 	// Validate Nbits
-	if Nbits <= 0 || Nbits > 16 {
-		return nil, fmt.Errorf("parameter Nbits must be in [1,16]")
+	if Nbits <= 0 || Nbits > 8 {
+		// Codes are stored one byte per subspace, so at most 2^8 codewords can be addressed
+		return nil, fmt.Errorf("parameter Nbits must be in [1,8]")
 	}
 
 	// Create distance calculator
